@@ -58,9 +58,10 @@ CHECKS = {
        "Present the store is emptied. THE IDENTIFIER STAYS HELD (C06_history_keeps_ownership, C06_stored_identifier_held): the ownership "
        "invariant OWN (allocator well formed; stored identifiers in use and distinct; each stored packet awaited in the set of its kind; "
        "awaited sets disjoint) is kept by every call and history, whatever the peer sends, under the application's side of the contract, "
-       "and the matching PUBACK/PUBREC/PUBCOMP erases exactly that packet. PARTIAL (C06_partial): the v5.0 accepted-implies-sent-or-stored "
-       "clause is decided by the monitor mon_c06 (ghost store from operations/events vs exported store and in-flight sets; clause 1 covers "
-       "PUBLISH and PUBREL) and the correspondence.",
+       "and the matching PUBACK/PUBREC/PUBCOMP erases exactly that packet; accepted-implies-sent-or-stored holds for v5.0 too "
+       "(C06_accepted_sent_or_stored_v5). On the model side nothing is left to the monitor alone; the implementation is judged by mon_c06 "
+       "(ghost store from operations/events vs exported store and in-flight sets; clause 1 covers PUBLISH and PUBREL, clause 28 restore) "
+       "and tied to the model by the correspondence.",
   ref="DESIGN.md §3 C06",
   note=CONN_NOTE,
   technique="Coq per-step and history-invariant proofs + ghost-store monitor + differential correspondence"),
